@@ -1,4 +1,4 @@
-HOOK_COMMITS = []
+HOOK_COMMITS = ["1ea259d verif hook: AST dump server behind the verif build tag (verif_astdump.go, //go:build verif)"]
 NOTES = ("Every check rebuilds pigeon, the 16 host parsers and the Lean theorems from /repo's working tree and /verif/lean. "
          "A VIOLATION line ending in no-failing-input-found means a proof obligation or the model/implementation correspondence broke "
          "without a concrete failing input having been found. Known findings are listed in /verif/known_findings.json.")
@@ -9,6 +9,9 @@ RT_NOTE = ("Theorems are about the hand-written model lean/PigeonVerif/Model/Run
            "The model is tied to the code by execution (H1 stream: the working tree's pigeon generates the 16 behavioural template variants; "
            "model and generated runtime must agree on this property's projection of the result on generated cases), not by proof. "
            "Axioms: propext, Quot.sound, Classical.choice at most. Trusted: Lean kernel, Go toolchain, the harness and its printers.")
+
+TOOLNOTE = ("Decided by execution on generated inputs (differential / oracle based), not by proof; the Lean part covers only the fragment named. "
+            "Trusted: the harness (harness/pvpeg generator, printer with position oracle, canonical dump), the verif AST-dump hook, go vet / go build / go/parser.")
 
 TEXTS = {
     "C01": dict(technique="Lean 4 theorems on a runtime model + differential correspondence",
@@ -97,4 +100,24 @@ TEXTS = {
                             "Kernel-checked (Properties/C18.lean, a model of statePool with map identities): under the Discard discipline every pooled map is empty and unowned (invariant of get/alloc/discard, hence of every interleaving), so cloneState yields exactly the caller's live contents whichever map the pool hands out, and no operation of one parse changes a map owned by another. "
                             "In the runtime model all other parser state is a value threaded through the functions (no shared variable exists), and the grammar is read-only."),
                 level_note=("Data races as the Go memory model defines them, sync.Pool's internals and the scheduler are outside any Lean model: that part is searched for by the race detector over the explored schedules only. The pool model is not tied to the Go code by a translator; the seeded-defect experiments (Discard without clearing, extra Put) show the stress harness detects such deviations.")),
+    "C03": dict(technique="differential round trip through the real front-end (verif hook) + Lean theorem on the class extraction phase",
+                design_ref="DESIGN.md §5 C03", engine="tools",
+                level_text=("Generated ASTs are printed in random concrete spellings and layouts, parsed by the real front-end (verif-tagged AST dump server in package main) and compared with the expected AST node by node including the position of every node's first token; the parsed AST is re-printed and re-parsed. "
+                            "Kernel-checked (Properties/C03.lean): the range/character extraction of CharClassMatcher.parse inverts the printer for every class whose single characters contain no '-' and whose ranges do not start with '-' (unbounded); the unrestricted statement is false (known finding D3). Known findings D3, D20, D21, F1, F2 are avoided by the default generator and replayed on every run."),
+                level_note=TOOLNOTE),
+    "C04": dict(technique="end-to-end generation + go vet + go build + run over flag sets; Lean facts on the method naming scheme",
+                design_ref="DESIGN.md §5 C04", engine="tools",
+                level_text=("Generated well-formed grammars with compilable code blocks are run through the real pigeon with sampled (quick) or all 32 (thorough) combinations of the generation switches, the packages are vetted, compiled and executed (package initialisation incl. every rangeTable lookup), each generated method is compared with the labels in scope, and results are compared across flag sets. "
+                            "Kernel-checked: the method naming scheme is injective within a rule and NOT injective across rules (C04_funcName_not_injective, known finding D4). Known findings D4, D5."),
+                level_note=TOOLNOTE),
+    "C13": dict(technique="process-level fuzzing of the real binary over inputs x flag sets with an exit-status/crash/hang/output oracle; Lean model of main()'s exit logic",
+                design_ref="DESIGN.md §5 C13", engine="tools",
+                level_text=("The real binary is run on valid, mutated, spliced, truncated and random inputs x random flag sets; every run must terminate within the timeout, exit with a documented status, print no Go panic trace, write parseable Go when it exits 0, never exit 0 on a text the front-end rejects, and print a diagnostic when it exits non-zero. "
+                            "Kernel-checked (Properties/C13.lean): in the model of main()'s decision structure a rejected grammar never yields exit status 0, exit 0 implies every stage that ran succeeded, and only the documented statuses occur. Known findings F4, D13; the Go stack limit (300k nested parentheses) is outside any model."),
+                level_note=TOOLNOTE),
+    "C20": dict(technique="exhaustive regeneration of every checked-in artifact (byte comparison) + differential comparison of the two front-ends; Lean fact on the one known scanner difference",
+                design_ref="DESIGN.md §5 C20", engine="tools",
+                level_text=("(b) EXHAUSTIVE: a copy of the working tree is regenerated with `make clean all` (static-code string tables, bootstrap parser, pigeon.go, all test and example parsers, with the Makefile's flags) and every tracked file is compared byte for byte — the three-stage bootstrap is a fixpoint iff nothing differs. "
+                            "(a) grammars in the bootstrap subset are parsed by bootstrap.Parser in-process and by the generated front-end through the verif hook and the ASTs compared (positions and display-name quoting aside), incl. the two checked-in grammars. Kernel-checked: the two scanners' escape validity tests differ exactly at U+E000 (known finding F3), and the bootstrap test only rejects more."),
+                level_note=TOOLNOTE),
 }
